@@ -662,6 +662,11 @@ func walk(r *simkit.Run, prop string) {
 							if strings.Contains(deciding, "no such index") {
 								sig = "drop-of-constraint-backed-index"
 							}
+							// Index names are global in SQLite: a name that leaves one table and is used on
+							// another one has to be dropped before it is created again (recorded finding).
+							if strings.Contains(deciding, "create index") && strings.Contains(deciding, "already exists") {
+								sig = "index-name-moves-between-tables"
+							}
 							r.Fail(prop, "plan-executable", sig, "step %d: the planned statements fail even with all rows removed: %v (first error: %v); changes [%s]; plan:\n%s", step, e2, aerr, changeKinds(changes), planText(plan))
 						} else {
 							r.Probe("natural-failure-is-data-dependent")
